@@ -49,7 +49,8 @@ def gen_addr(w, cfg):
         low = w.choice([0, 0, 2, 8])
         mask = (1 << low) - 1
         for _ in range(w.randint(1, cfg.get("max_holes", 3))):
-            mask |= 1 << w.randint(low + 1, 23)
+            mask |= 1 << (w.choice([31, 31, 30, 24]) if w.random() < 0.2
+                          else w.randint(low + 1, 23))
         if is_contig(mask):
             mask |= 1 << 20
             if is_contig(mask):
@@ -421,7 +422,7 @@ def gen_members(w, platform, n):
             base = _base(w) & ~mask & ALL32
             out.append(f"{ip(base)}/{32 - k}" if platform == "nxos" else f"{ip(base)} {ip(mask)}")
         else:
-            mask = 0x00000503 if w.random() < 0.5 else 0x00010100
+            mask = w.choice([0x00000503, 0x00010100, 0x80000003, 0x800000FF])
             base = _base(w) & ~mask & ALL32
             out.append(f"{ip(base)} {ip(mask)}")
     return out
